@@ -97,7 +97,8 @@ fn replay(args: &[String]) -> i32 {
         };
         let reset = json!({"op": {"op": "reset", "beh": meta.get("id").cloned().unwrap_or(json!(ln)),
             "phys": phys.describe(), "key_alpha": conc.key_alpha, "val_alpha": conc.val_alpha,
-            "blob": blob.is_some()},
+            "blob": blob.is_some(),
+            "big": blob.as_ref().map_or(vec![], |b| (1..=200i64).filter(|v| conc.val_len(*v) >= b.threshold as usize).collect::<Vec<_>>())},
             "ret": "ok", "rk": "ok", "ro": false, "info": {}, "st": sess.project(), "obs": sess.observe()});
         writeln!(wr, "{reset}").expect("write");
         nbeh += 1;
